@@ -322,6 +322,8 @@ class PE:
         # module-level constant string / in-repo def / import
         if name in mi.consts and isinstance(mi.consts[name], (str, int, bool, tuple, type(None))):
             return Const(mi.consts[name])
+        if name in mi.consts and mi.consts[name] is type(None):
+            return Py(type(None), "NoneType")
         k = f"{mi.name}::{name}"
         if k in self.repo.funcs:
             return Func(self.repo.funcs[k])
@@ -349,6 +351,8 @@ class PE:
             m = self.repo.modules.get(mod)
             if m is not None and nm in m.consts and isinstance(m.consts[nm], (str, int, bool, tuple, type(None))):
                 return Const(m.consts[nm])
+            if m is not None and nm in m.consts and m.consts[nm] is type(None):
+                return Py(type(None), "NoneType")
             return self.sym(local, node)
         # standard library object
         parts = q.split(".")
@@ -866,7 +870,29 @@ class PE:
         return out
 
     def ev_DictComp(self, e, p):
-        return [(self.opaque_expr(e, p), p)]
+        if len(e.generators) != 1 or e.generators[0].ifs:
+            return [(self.opaque_expr(e, p), p)]
+        g = e.generators[0]
+        out = []
+        for it, q in self.ev(g.iter, p):
+            if not isinstance(it, (Lst, Tup, Dct)) or getattr(it, "open", False):
+                out.append((self.opaque_expr(e, q), q))
+                continue
+            elems, _ = self.iter_elems(it, q, g.iter)
+            saved = dict(q.env)
+            entries = {}
+            ok = True
+            for el in elems:
+                self.bind(g.target, el, q)
+                rk = self.ev(e.key, q)
+                rv = self.ev(e.value, q)
+                if len(rk) != 1 or len(rv) != 1:
+                    ok = False
+                    break
+                entries[show(rk[0][0])] = (rk[0][0], rv[0][0])
+            q.env = saved
+            out.append((Dct("dict", entries, name=f"dict@{e.lineno}") if ok else self.opaque_expr(e, q), q))
+        return out
 
     def _comprehension(self, e, p, kind):
         if len(e.generators) != 1 or e.generators[0].ifs:
